@@ -108,6 +108,23 @@ def ill_typed_sources(rng):
     return {'sources': h['init'], 'entry': sorted(h['init'])[0] if h['init'] else 'M0', 'features': ['ill-typed']}
 
 
+def capture_program(rng):
+    """Lambdas that capture several variables and use them in a position-dependent way (digits of a number, subtraction), in two
+    modules: the order in which the closure context is BUILT and the order in which it is READ must agree whatever the hash seed."""
+    names = rng.shuffle(['alpha', 'b', 'count', 'd', 'eta', 'f', 'gamma', 'h'])
+    k = rng.range(3, 5)
+    ps = names[:k]
+    digits = ' + '.join('%s * %d' % (n, 10 ** (k - 1 - i)) for i, n in enumerate(ps))
+    util = ('class Util {\n  function digits(%s): () -> int = () -> %s\n  function sub(x: int, y: int, w: int): (int) -> int = (z) -> x - y * 3 + z - w * 7\n}\n'
+            % (', '.join('%s: int' % n for n in ps), digits))
+    args = ', '.join(str(rng.range(1, 9)) for _ in ps)
+    main = ('import { Util } from Util;\nclass Main {\n  function main(): unit = {\n    Process.println(Str.fromInt(Util.digits(%s)()));\n'
+            '    Process.println(Str.fromInt(Util.sub(%d, %d, %d)(%d)));\n    let p = %d; let q = %d; let r = %d;\n'
+            '    let g = (t: int) -> p * 100 + q * 10 + r - t;\n    Process.println(Str.fromInt(g(%d)));\n  }\n}\n'
+            % (args, rng.range(1, 20), rng.range(1, 9), rng.range(1, 5), rng.range(0, 9), rng.range(1, 9), rng.range(1, 9), rng.range(1, 9), rng.range(0, 9)))
+    return {'sources': {'Util': util, 'Main': main}, 'entry': 'Main', 'features': ['captures']}
+
+
 def listing_sources(rng):
     """Ill-typed two/three-module sources whose diagnostics LIST or CHOOSE among names: several missing members of a class,
     several fields a pattern does not mention, non-exhaustive matches with more than one deficient constructor; names shorter
@@ -311,6 +328,8 @@ def run(tier, seed, replay=None):
                 progs.append(multi_entry_program(r))
             elif i % 6 == 2:
                 progs.append(listing_sources(r))
+            elif i % 6 == 4:
+                progs.append(capture_program(r))
             elif i % 3 == 0:
                 progs.append(ill_typed_sources(r))
             elif i % 3 == 1:
